@@ -3,6 +3,7 @@ harnesses of the form  real_code(inputs) == oracle(inputs)."""
 from __future__ import annotations
 
 import random
+import zlib
 from fractions import Fraction
 
 import numpy as np
@@ -43,11 +44,13 @@ class In:
 
 
 class Encoded:
-    def __init__(self, real_fn, ins, tag=""):
+    def __init__(self, real_fn, ins, tag="", closed=None):
         self.real_fn = real_fn
         self.ins = ins
-        self.closed, out_shape = jax.make_jaxpr(real_fn, return_shape=True)(*[i.example() for i in ins])
-        self.out_tree = jax.tree_util.tree_structure(out_shape)
+        if closed is None:
+            closed, out_shape = jax.make_jaxpr(real_fn, return_shape=True)(*[i.example() for i in ins])
+            self.out_tree = jax.tree_util.tree_structure(out_shape)
+        self.closed = closed
         self.interp = Interp(tag)
         self.outs = self.interp.run(self.closed, *[i.sym for i in ins])
         self.vars = free_vars([i.sym for i in ins])
@@ -55,6 +58,10 @@ class Encoded:
         for i in ins:
             for nm in free_vars([i.sym]):
                 self.ranges[nm] = (i.lo, i.hi)
+
+    def clone_with(self, ins, tag=""):
+        """same traced program, other symbolic inputs (same shapes)"""
+        return Encoded(self.real_fn, ins, tag=tag, closed=self.closed)
 
     # ----- concrete side -----
     def concrete_inputs(self, values):
@@ -109,7 +116,8 @@ class Encoded:
     # ----- obligations -----
     def replay_eq(self, out_index, comp, oracle_scalar, tol=1e-7, extra_vals=None):
         def replay(model):
-            vals = {nm: 0.0 for nm in self.vars}
+            # variables the model leaves unconstrained get fixed generic non-zero values
+            vals = {nm: 0.37 + 0.11 * (zlib.crc32(nm.encode()) % 10) for nm in self.vars}
             if extra_vals:
                 vals.update(extra_vals)
             for k, v in model.items():
